@@ -213,10 +213,15 @@ def account(ctx, rule, cls, extra_subst=None):
     by_state = {}
     for guards, val in expand_paths(exs.paths):
         st = {}
+        feasible = True
         for g in guards:
             kind, pol = classify(g)
             if kind != "U":
+                if st.get(kind, pol) != pol:
+                    feasible = False  # the same state test assumed true and false on one path
                 st[kind] = pol
+        if not feasible:
+            continue
         kind = outcome_kind(val)
         p = interval(guards)
         cells.append({"state": st, "outcome": kind, "p": p})
@@ -243,10 +248,14 @@ def account(ctx, rule, cls, extra_subst=None):
     ksub = {}
     for guards, val in expand_paths(exl.paths):
         asg = {}
+        feasible = True
         for g in guards:
             kind, pol = classify(g)
+            if kind != "U" and asg.get(kind, pol) != pol:
+                feasible = False
             asg[kind] = pol
-        lpaths.append((asg, val, guards))
+        if feasible:
+            lpaths.append((asg, val, guards))
     # number-of-children atoms -> K
     def to_K(v):
         m = {}
@@ -679,6 +688,11 @@ _BS = "phyclone/smc/kernels/bootstrap.py"
 _SA = "phyclone/smc/kernels/semi_adapted.py"
 _FA = "phyclone/smc/kernels/fully_adapted.py"
 SELFTEST = [
+    # ---- found by the second round of seeded changes
+    {"name": "A2-outliers-only-parent-starts-from-empty-tree", "kind": "break", "rule": "A2", "file": _BS, "old": "        elif len(self.parent_tree.nodes) == 0:\n            if u < (1 - self.outlier_proposal_prob):\n                tree = self._propose_new_node()\n\n            else:\n                tree = self._propose_outlier()", "new": "        elif len(self.parent_tree.nodes) == 0:\n            tree = Tree(self.data_point.grid_size)\n            if u < (1 - self.outlier_proposal_prob):\n                node = tree.create_root_node([])\n                tree.add_data_point_to_node(self.data_point, node)\n            else:\n                tree.add_data_point_to_outliers(self.data_point)"},
+    {"name": "S1-outlier-placement-scored-as-new-clone", "kind": "break", "rule": "S1", "file": _SA, "old": "if node in self.parent_particle.tree_nodes or node == tree.outlier_node_name:", "new": "if node in self.parent_particle.tree_nodes:"},
+    {"name": "benign-S1-guard-order", "kind": "benign", "file": _SA, "old": "if node in self.parent_particle.tree_nodes or node == tree.outlier_node_name:", "new": "if node == tree.outlier_node_name or node in self.parent_particle.tree_nodes:"},
+    {"name": "benign-B1-empty-tree-helper-in-log_p-style", "kind": "benign", "file": _BS, "old": "        # First particle\n        if self.parent_particle is None:\n            tree = Tree(self.data_point.grid_size)", "new": "        first = self.parent_particle is None\n        if first:\n            tree = Tree(self.data_point.grid_size)"},
     {"name": "B1-revert-F4", "kind": "break", "rule": "B1", "file": _BS, "old": "                if len(self.parent_tree.nodes) == 0:\n                    log_p = np.log(1 - self.outlier_proposal_prob)\n                else:\n                    log_p = np.log((1 - self.outlier_proposal_prob) / 2)\n", "new": "                log_p = np.log((1 - self.outlier_proposal_prob) / 2)\n"},
     {"name": "B1-log_p-third-not-half", "kind": "break", "rule": "B1", "file": _BS, "old": "log_p = np.log((1 - self.outlier_proposal_prob) / 2) - np.log(num_nodes)", "new": "log_p = np.log((1 - self.outlier_proposal_prob) / 3) - np.log(num_nodes)"},
     {"name": "B1-existing-over-R+1", "kind": "break", "rule": "B1", "file": _BS, "old": "log_p = np.log((1 - self.outlier_proposal_prob) / 2) - np.log(num_nodes)", "new": "log_p = np.log((1 - self.outlier_proposal_prob) / 2) - np.log(num_nodes + 1)"},
